@@ -361,7 +361,7 @@ def gen_cargo_toml(rnd):
 
 
 PY_NAMES = ['requests', 'Django', 'typing_extensions', 'numpy', 'zope.interface', 'a-b', 'Flask']
-PY_SPECS = ['>=2.0', '==1.0.0', '~=1.4', '>=1.0,<2.0', '!=1.5', '<3', '>1', '>=1.0, <2.0', '== 2.31.0', '>= 1.0', '']
+PY_SPECS = ['>=2.0', '==1.0.0', '~=1.4', '>=1.0,<2.0', '!=1.5', '<3', '>1', '>=1.0, <2.0', '== 2.31.0', '>= 1.0', '', '<4.0,>=3.2', '!=1.25.0,>=1.21.1', '>19.0,<=23.1', '<6,>=5.2', '~=2.1,!=2.1.3', '<=3,>1', '==1.*']
 
 
 def norm_pep_name(n):
@@ -440,11 +440,16 @@ def gen_pyproject(rnd):
                 out.w('dependencies' + eq)
                 array(out, set())
                 out.w(nl)
+                if rnd.random() < 0.25:
+                    # a key that is not a bare key right after the dependency array: its strings are not dependencies
+                    out.w(rnd.choice(['"keywords"', "'classifiers'", 'urls.mirrors', '"entry-points".console']) + eq + '["flask>=1.0", "http"]' + nl)
             if rnd.random() < 0.3:
                 out.w('requires-python' + eq + '">=3.8"' + nl)
         elif b == 'build-system':
             out.w('[build-system]' + nl + 'requires' + eq)
             array(out, set())
+            if rnd.random() < 0.25:
+                out.w(nl + rnd.choice(['"backend-path"', "'backend-path'", 'backend.path']) + eq + '["src", "tools>=2"]')
             out.w(nl + 'build-backend' + eq + '"setuptools.build_meta"' + nl)
         elif b == 'optional':
             out.w('[project.optional-dependencies]' + nl)
